@@ -10,7 +10,7 @@ ocaml/wire/driver.ml parse_ety drop the markers):
   H  descriptor written through <&dyn AsRawFd as Marshal>, read through UnixFd
   S  String written through &str and read through <&str as Unmarshal>      O  ObjectPath<&str>      G  SignatureWrapper<&str>
   aC<e>  read through Cow<[E]>, written through &[E]          aR<e>  written through <&[E] as Marshal> directly
-  aN<e>  written through [E; N] (N = 0..5, 8; other lengths through the unsized [E]), read through Vec<E>
+  aN<e>  written through [E; N] (N = 0, 1, 2, 4, 5, 8; other lengths through the unsized [E]), read through Vec<E>
   aBy    written through &[u8], read through <&[u8] as Unmarshal> (Cursor::read_u8_slice)
 Types that can only be marshalled (5-tuples: the crate has no Unmarshal impl) are a separate list,
 gen/catalogue_m.txt / MARSHAL_ONLY / dispatch_m.
